@@ -15,7 +15,33 @@ use serde_json::json;
 const ME: Id = Id::new(0, 0);
 
 fn fresh(rng_seed: u64) -> Node {
-    Node::new(ME, Cfg::simple(), CodecKind::Hand, HdlCfg::disabled(), rng_seed)
+    fresh_with(rng_seed, true)
+}
+
+fn fresh_with(rng_seed: u64, tiny_ok: bool) -> Node {
+    // the view must not depend on the packet size either: in a quarter of the instances some (or all) of the
+    // members' encodings are longer than a whole packet (not when the instance will have to send: a refutation
+    // that cannot be encoded legitimately aborts the batch)
+    let mut cfg = Cfg::simple();
+    if tiny_ok {
+        match rng_seed % 8 {
+            0 => cfg.mps = 8,
+            1 => cfg.mps = 5 + (rng_seed / 8 % 6) as usize,
+            _ => {}
+        }
+    }
+    Node::new(ME, cfg, CodecKind::Hand, HdlCfg::disabled(), rng_seed)
+}
+
+/// news about the instance itself mixed into a batch (it cannot renew: it goes Defunct, or refutes): whatever it
+/// does with them, the records of everybody else must come out the same
+fn self_news(r: &mut Rng64) -> Member<Id> {
+    match r.below(4) {
+        0 => Member::new(ME, 0, State::Down),
+        1 => Member::new(ME, u16::MAX, State::Suspect),
+        2 => Member::new(ME, r.below(3) as u16, State::Suspect),
+        _ => Member::new(ME, 3, State::Alive),
+    }
 }
 
 fn view_of(n: &Node) -> Vec<(Id, u8, u16)> {
@@ -135,7 +161,20 @@ fn perm_case(ctx: &Ctx, case: u64, acc: &mut Acc) -> Verdict {
                 seq.insert(at, d);
             }
         }
-        let mut n = fresh(r.next());
+        // ... and, in a third of the deliveries, one or two pieces of news about the instance itself in between
+        let mut with_self = 0u64;
+        if r.chance(1, 3) {
+            for _ in 0..r.range(1, 2) {
+                let at = r.usize(seq.len() + 1);
+                seq.insert(at, self_news(&mut r));
+                with_self += 1;
+            }
+        }
+        acc.tally("updates_about_the_instance_itself_mixed_in", with_self);
+        let mut n = fresh_with(r.next(), with_self == 0);
+        if n.cfg.mps < 100 {
+            acc.tally("instances_with_packets_smaller_than_a_member", 1);
+        }
         let bcast = r.chance(1, 2);
         match pi % 3 {
             0 => apply_stepwise(&mut n, &seq, bcast)?,
@@ -165,7 +204,7 @@ fn perm_case(ctx: &Ctx, case: u64, acc: &mut Acc) -> Verdict {
     // delivery through datagrams from a third party that is not in the domain
     {
         let sender = Id::new(9, 0);
-        let mut n = fresh(r.next());
+        let mut n = fresh_with(r.next(), false);
         let mut seq = us.clone();
         r.shuffle(&mut seq);
         let mut i = 0;
